@@ -254,6 +254,14 @@ Proof.
   (split; [fp_unfold; lia | apply aligned_1]).
 Qed.
 
+Lemma fp_encode_into_sse2_all_safe L :
+  0 <= L -> Forall (Safe (ext_encode L L) balign_slices) (fp_encode_into_sse2 L).
+Proof.
+  intros HL. unfold fp_encode_into_sse2. apply Forall_app. split.
+  - apply fp_encode_simd_safe; [lia | auto].
+  - constructor; [|constructor]. split; [fp_unfold; lia | apply aligned_1].
+Qed.
+
 Lemma fp_encode_generic_safe L :
   0 <= L -> Forall (Safe (ext_encode L L) balign_slices) (fp_encode_generic L).
 Proof.
